@@ -7,6 +7,7 @@ import SJ.Proofs.MarshalExact
 import SJ.Proofs.GoEscape
 import SJ.Proofs.GoMarshal
 import SJ.Proofs.GoArrMarshal
+import SJ.Proofs.GoWrappers
 /-
 C10 — MarshalJSON emits valid JSON denoting the same document.
 -/
@@ -171,5 +172,49 @@ theorem C10_array_marshal_follows_source (pj : PJ) (hb : BufOK pj) (v : View) (h
     runFun goFuns goArray_MarshalJSONBuffer F ⟨arrEnv pj v dst, pj.tape⟩ ≠ .diverge ∧
     (∀ w, runFun goFuns goArray_MarshalJSONBuffer F ⟨arrEnv pj v dst, pj.tape⟩ ≠ .stuck w) :=
   go_arrmarshal_source_tie pj hb v hl dst F hF
+
+open SJ.GoSem SJ.Generated SJ.GoIter SJ.GoObject SJ.GoSet SJ.GoMarshal SJ.GoArrMarshal SJ.GoWrappers in
+/-- **Source tie** (DESIGN §6.3). The thin wrappers `Iter.SetString`, `Iter.MarshalJSON`, `Array.MarshalJSON`,
+    `Type.String`, `Tag.String` and `FloatFlags.Contains` are printed from /repo as syntax trees on every run. One generic
+    theorem (`wrapper_run`: a body that is the single statement `return recv.f(args)` means the callee, plus the copy-back
+    of the receiver) carries the callee's tie over: `SetString` is `SetStringBytes`, `MarshalJSON` is
+    `MarshalJSONBuffer(nil)` (= the model's `marshalBuf pj #[]` / `arrMarshal`), `Type.String` returns the ten names and
+    "(invalid)", `Tag.String` the one-byte string, `Contains` the mask test — for every input; one more unit of fuel than
+    the callee (each wrapper diverges at fuel 0). -/
+theorem C10_wrappers_follow_source (pj : PJ) :
+    (∀ (i : Iter) (sv : Bytes) (fuel : Nat), i.lim ≤ pj.tape.size →
+      SimSet pj i (runFun goFuns goIter_SetString (fuel + 1)
+          { env := envOf "i" i ++ [("Strings.B", .bytes pj.strings), ("v", .bytes sv)], tape := pj.tape })
+        (i.setStringBytes pj sv)) ∧
+    (BufOK pj → ∀ (i : Iter) (F : Nat), i.lim ≤ pj.tape.size → 0 ≤ i.addNext → i.cur.toNat < 2^63 →
+      fuelOf pj + i.lim + 10 ≤ F →
+      (∀ out, i.marshalBuf pj #[] = .ok out ↔
+        ∃ st, runFun goFuns goIter_MarshalJSON F ⟨envOf "i" i ++ bufEnv pj, pj.tape⟩ = .ret st [.bytes out, .bool false] ∧
+          st.tape = pj.tape) ∧
+      ((∃ er, i.marshalBuf pj #[] = .error er) ↔
+        ∃ st v, runFun goFuns goIter_MarshalJSON F ⟨envOf "i" i ++ bufEnv pj, pj.tape⟩ = .ret st [v, .bool true]) ∧
+      i.marshalBuf pj #[] ≠ .panic ∧ i.marshalBuf pj #[] ≠ .diverge ∧
+      runFun goFuns goIter_MarshalJSON F ⟨envOf "i" i ++ bufEnv pj, pj.tape⟩ ≠ .panic ∧
+      runFun goFuns goIter_MarshalJSON F ⟨envOf "i" i ++ bufEnv pj, pj.tape⟩ ≠ .diverge ∧
+      (∀ w, runFun goFuns goIter_MarshalJSON F ⟨envOf "i" i ++ bufEnv pj, pj.tape⟩ ≠ .stuck w)) ∧
+    (BufOK pj → ∀ (v : View) (F : Nat), v.lim ≤ pj.tape.size → 2 * fuelOf pj + v.lim + 11 ≤ F →
+      (∀ out, View.arrMarshal pj v = .ok out ↔
+        ∃ st, runFun goFuns goArray_MarshalJSON F ⟨arrEnv0 pj v, pj.tape⟩ = .ret st [.bytes out, .bool false] ∧
+          st.tape = pj.tape) ∧
+      ((∃ er, View.arrMarshal pj v = .error er) ↔
+        ∃ st x, runFun goFuns goArray_MarshalJSON F ⟨arrEnv0 pj v, pj.tape⟩ = .ret st [x, .bool true]) ∧
+      (View.arrMarshal pj v = .panic ↔ runFun goFuns goArray_MarshalJSON F ⟨arrEnv0 pj v, pj.tape⟩ = .panic) ∧
+      View.arrMarshal pj v ≠ .panic ∧ View.arrMarshal pj v ≠ .diverge ∧
+      runFun goFuns goArray_MarshalJSON F ⟨arrEnv0 pj v, pj.tape⟩ ≠ .panic ∧
+      runFun goFuns goArray_MarshalJSON F ⟨arrEnv0 pj v, pj.tape⟩ ≠ .diverge ∧
+      (∀ w, runFun goFuns goArray_MarshalJSON F ⟨arrEnv0 pj v, pj.tape⟩ ≠ .stuck w)) ∧
+    (∀ (t : UInt8) (fuel : Nat) (tape : Array UInt64),
+      runFun goFuns goType_String fuel ⟨[("t", .u8 t)], tape⟩ = .ret ⟨[("t", .u8 t)], tape⟩ [.bytes (typeName t)]) ∧
+    (∀ (t : UInt8) (fuel : Nat) (tape : Array UInt64),
+      runFun goFuns goTag_String fuel ⟨[("t", .u8 t)], tape⟩ = .ret ⟨[("t", .u8 t)], tape⟩ [.bytes #[t]]) ∧
+    (∀ (f flag : UInt64) (fuel : Nat) (tape : Array UInt64),
+      runFun goFuns goFloatFlags_Contains fuel ⟨[("f", .u64 f), ("flag", .u64 flag)], tape⟩ =
+        .ret ⟨[("f", .u64 f), ("flag", .u64 flag)], tape⟩ [.bool ((f &&& flag) == flag)]) :=
+  SJ.GoWrappers.go_wrappers_source_tie pj
 
 end SJ.Properties.C10
